@@ -38,16 +38,84 @@ def assert_repo():
         raise RuntimeError("verif imported from %s, not from %s" % (p, REPO))
 
 
+def run_isolated(fn, *args):
+    """Execute fn(*args) in a forked child and return its (pickled) result.
+
+    Every simulated run starts from the pristine interpreter state of the worker (which itself never
+    executes code of the system under test), so process-global state of verif or its dependencies
+    (module-level caches, class attributes, default-argument instances, pyplot state, lru_caches)
+    cannot leak from one run into the next: one seed is one exactly repeatable execution whatever
+    the batch layout.  State leaking *inside* a run is what the run explores."""
+    import pickle
+    r, w = os.pipe()
+    pid = os.fork()
+    if pid == 0:
+        code = 0
+        try:
+            os.close(r)
+            try:
+                payload = pickle.dumps(("ok", fn(*args)), protocol=pickle.HIGHEST_PROTOCOL)
+            except BaseException:
+                payload = pickle.dumps(("error", traceback.format_exc()))
+                code = 3
+            with os.fdopen(w, "wb") as f:
+                f.write(payload)
+        finally:
+            os._exit(code)
+    os.close(w)
+    chunks = []
+    with os.fdopen(r, "rb") as f:
+        while True:
+            b = f.read(1 << 20)
+            if not b:
+                break
+            chunks.append(b)
+    _, status = os.waitpid(pid, 0)
+    data = b"".join(chunks)
+    if not data:
+        raise ChildDied(status)
+    kind, val = pickle.loads(data)
+    if kind != "ok":
+        raise RuntimeError("isolated run raised:\n" + val)
+    return val
+
+
+class ChildDied(RuntimeError):
+    def __init__(self, status):
+        RuntimeError.__init__(self, "isolated run died without a result (wait status %d)" % status)
+        self.status = status
+
+
+def crash_result(e):
+    sig = "process_crash wait_status=%d" % e.status
+    return {"violation": {"step": None, "kind": "process_crash", "detail": {"wait_status": e.status}, "signature": sig},
+            "digest": "crash-%d" % e.status, "stats": {"process_crash": 1}, "fired": {}, "states": [], "log": [],
+            "steps": 0, "nontrivial": False}
+
+
+def execute_isolated(prop, spec, workdir):
+    from . import props
+    try:
+        return run_isolated(props.PROPS[prop]["execute"], spec, workdir)
+    except ChildDied as e:
+        return crash_result(e)
+
+
 def _worker_batch(args):
     prop, seed, tier, runs, base, keep_specs = args
-    faulthandler.dump_traceback_later(600, exit=True)
+    faulthandler.dump_traceback_later(900, exit=True)
     from . import props
     P = props.PROPS[prop]
     out = []
     wd = os.path.join(base, "w%d" % os.getpid())
     for run in runs:
         spec = P["gen"](seed, run, tier)
-        res = P["execute"](spec, os.path.join(wd, "r%d" % run))
+        try:
+            res = run_isolated(P["execute"], spec, os.path.join(wd, "r%d" % run))
+        except ChildDied as e:
+            # the simulated process itself crashed (abort/segfault inside a C library, os._exit ...):
+            # that is an outcome of the run, reported like any other violation and replayable
+            res = crash_result(e)
         c = {"run": run, "digest": res["digest"], "violation": res.get("violation"), "stats": res.get("stats", {}),
              "fired": res.get("fired", {}), "states": res.get("states", []), "nontrivial": res.get("nontrivial", False),
              "ilv": res.get("ilv"), "steps": res.get("steps", 0), "mode": res.get("mode"),
@@ -220,8 +288,9 @@ def main_check(prop, tier, seed, n_runs=None, workers=None, time_cap=None):
         os.makedirs(repdir, exist_ok=True)
         for sig, rs in sorted(by_sig.items()):
             r = rs[0]
-            m = M.Minimiser(P["execute"], os.path.join(base, "min"), budget=P.get("min_budget", 250))
-            res0 = P["execute"](r["spec"], os.path.join(base, "min0"))
+            iso = lambda spec, wd, _p=prop: execute_isolated(_p, spec, wd)
+            m = M.Minimiser(iso, os.path.join(base, "min"), budget=P.get("min_budget", 250))
+            res0 = iso(r["spec"], os.path.join(base, "min0"))
             if res0.get("violation") is None or res0["violation"].get("signature") != sig:
                 print("HARNESS-ERROR violation of run %d did not reproduce in the parent process" % r["run"])
                 return 2
@@ -255,7 +324,7 @@ def main_check(prop, tier, seed, n_runs=None, workers=None, time_cap=None):
             kp = os.path.join(ROOT, k["replay"])
             with open(kp) as f:
                 rep = json.load(f)
-            kres = P["execute"](rep["spec"], os.path.join(base, "known"))
+            kres = execute_isolated(prop, rep["spec"], os.path.join(base, "known"))
             kv = kres.get("violation")
             if kv is not None and kv.get("signature") == k["signature"]:
                 print("KNOWN-FINDING: property=%s %s (committed replay %s)" % (prop, k["signature"], k["replay"]))
@@ -342,7 +411,7 @@ def main_replay(path):
     P = props.PROPS[prop]
     base = scratch_base()
     try:
-        res = P["execute"](rep["spec"], os.path.join(base, "replay"))
+        res = execute_isolated(prop, rep["spec"], os.path.join(base, "replay"))
     finally:
         shutil.rmtree(base, ignore_errors=True)
     v = res.get("violation")
